@@ -421,6 +421,55 @@ fn case_append_after_stop(out: &mut CaseOut, seed: u64, idx: usize) {
                 }
             }
         }
+        // The same, but the writer died in the middle of a fragment that is not the first one of
+        // the big record (the First fragment is intact, a later one is torn), and a reopened
+        // writer appends behind the torn bytes. Records that start in the damaged block may be
+        // lost; what is read back must still be an in-order selection of what was appended -
+        // never a record that nobody appended (e.g. the tail of the new records glued to nothing).
+        for &wi in owned.iter().skip(1) {
+            let (from, to) = (w.write_ends[wi - 1], w.write_ends[wi]);
+            if to - from < 4 {
+                continue;
+            }
+            let cut_at = from + [1usize, (to - from) / 2, to - from - 1][rng.usize_below(3)];
+            let (l1, l2) = ([70_000usize, 100_000, 40_000][rng.usize_below(3)], rng.usize_below(300));
+            let tail = vec![record_bytes(&mut rng, l1, 0xD6), record_bytes(&mut rng, l2, 0xE7)];
+            let stopped = cut_image(&w.image, &path, cut_at);
+            let fs = SimFs::from_image(&stopped);
+            let appended = match Writer::new(fs.as_provider(), &path, true) {
+                Ok(mut writer) => tail.iter().all(|t| writer.append(t).is_ok()),
+                Err(_) => false,
+            };
+            if !appended {
+                continue;
+            }
+            let mut expected: Vec<Vec<u8>> = records[..big_index].to_vec();
+            expected.extend(tail.iter().cloned());
+            let ctx = json!({"family": "append-after-torn-fragment", "start_offset": start, "big_record_len": big,
+                "torn_inside_write": [from, to], "cut_at": cut_at, "appended_lens": describe(&tail)});
+            out.add("torn_fragment_reads", 1);
+            if let Ok(rb) = read_all(&fs.image(), expected.len() + 6) {
+                // in-order selection of `expected`?
+                let mut next = 0usize;
+                let mut phantom = None;
+                for r in &rb.records {
+                    match expected[next..].iter().position(|e| e == r) {
+                        Some(p) => next += p + 1,
+                        None => {
+                            phantom = Some(r.len());
+                            break;
+                        }
+                    }
+                }
+                if rb.runaway || phantom.is_some() {
+                    out.violate(
+                        "C12/append-after-torn-fragment/phantom-record",
+                        json!({"ctx": ctx, "expected_lens": describe(&expected), "read_lens": describe(&rb.records), "phantom_record_len": phantom}),
+                    );
+                }
+                out.nontrivial(format!("torn-fragment/{}/{}/frag{}", off_class(start), len_class(big), wi.min(3)));
+            }
+        }
     }
     out.add("fragment_stops", stops);
     out.sample = Some(json!({"family": "append-after-stop", "start_offset": start, "big_record_lens": big_lens, "stops_tested": stops}));
